@@ -181,9 +181,13 @@ def run_history(case):
             {"nontrivial": False, "classes": ["construct-failed"]}
     try:
         c.restart()
+        # the set point the controller last worked with, followed by the harness itself: it changes at EVALUATED updates
+        # only, so a change that is first seen by an update without time lapse is still a change at the next evaluated one
+        ref_prsp = c.prsp.value
         for i, step in enumerate(case["steps"]):
             if step.get("restart"):
                 c.restart()
+                ref_prsp = c.prsp.value
                 cls.add("restart-step")
             inp, rate, rsp, dt = num(step["inp"]), num(step["rate"]), num(step["rsp"]), step["dt"]
             c.input.value = inp
@@ -191,7 +195,9 @@ def run_history(case):
             c.rsp.value = rsp
             store.advanceStamp(dt)
             # state before the update (all observable shares of the controller group)
-            prsp0, pe, es0, out0 = c.prsp.value, c.e.value, c.es.value, c.output.value
+            prsp0, pe, es0, out0 = ref_prsp, c.e.value, c.es.value, c.output.value
+            if not same_float(c.prsp.value, ref_prsp):
+                cls.add("setpoint-first-seen-by-zero-lapse-update")
             try:
                 c.action()
             except Exception as ex:
@@ -226,6 +232,7 @@ def run_history(case):
             cls.add("setpoint-changed" if changed else "setpoint-kept")
             if not changed and rsp != prsp0:
                 cls.add("setpoint-noise-below-drsp")
+            ref_prsp = rsp_eff
             if not same_float(prsp1, rsp_eff):
                 fail("prior-setpoint-wrong", "prior set point share is %r, expected %r (set point %r, prior %r, drsp %r)"
                      % (prsp1, rsp_eff, rsp, prsp0, P["drsp"]), i)
